@@ -327,6 +327,25 @@ def handleOnline (fix : Fix) (refused : List Nat) (m : Master) (devResp : Option
       | none => (reqs ++ [.getDevice, .getPorts], { m1 with dev := d, online := false })
       | some ps => (reqs ++ [.getDevice, .getPorts], { (fetchPorts fix { m1 with dev := d } ps) with ready := true })
 
+/-- Pushed-events mode (the slave is neither listened to nor polled; it POSTs its events to
+/devices/<name>/events): `post_slave_device_events` handles the event out of band (`stepEvent`) and schedules
+`_provision_and_update` = apply_provisioning, fetch_and_update_device, fetch_and_update_ports. The slave is never
+"online" in this mode: edits stay recorded until the next run pushes them. `none` = the fetch failed (the run dies). -/
+def provisionAndUpdate (fix : Fix) (refused : List Nat) (m : Master) (devResp : Option Attrs)
+    (portsResp : Option (List PortMsg)) : List Req × Master :=
+  let (reqs, m1) := applyProvisioning fix refused m
+  match devResp with
+  | none => (reqs ++ [.getDevice], m1)
+  | some d =>
+    match portsResp with
+    | none => (reqs ++ [.getDevice, .getPorts], { m1 with dev := d })
+    | some ps => (reqs ++ [.getDevice, .getPorts], fetchPorts fix { m1 with dev := d } ps)
+
+/-- One pushed event followed (one second later) by its synchronisation run. -/
+def pushedStep (fix : Fix) (refused : List Nat) (m : Master) (e : Ev) (devResp : Option Attrs)
+    (portsResp : Option (List PortMsg)) : List Req × Master :=
+  provisionAndUpdate fix refused (stepEvent fix m e) devResp portsResp
+
 /-- One listen response: events in order, then the online transition if the master was offline. -/
 def listenStep (fix : Fix) (refused : List Nat) (m : Master) (evs : List Ev) (devResp : Option Attrs)
     (portsResp : Option (List PortMsg)) : List Req × Master :=
